@@ -51,9 +51,10 @@ class SReal(object):
 
 class SStr(object):
     """String (or bytes) with symbolic content: chars are arr[off + i], 0 <= i < length."""
-    __slots__ = ("length", "arr", "off", "opaque", "is_bytes")
+    __slots__ = ("length", "arr", "off", "opaque", "is_bytes", "maxlen")
 
-    def __init__(self, length, arr, off=None, opaque=False, is_bytes=False):
+    def __init__(self, length, arr, off=None, opaque=False, is_bytes=False, maxlen=None):
+        self.maxlen = maxlen
         self.length = length if z3.is_expr(length) else z3.IntVal(length)
         self.arr = arr
         self.off = z3.IntVal(0) if off is None else (off if z3.is_expr(off) else z3.IntVal(off))
@@ -65,6 +66,13 @@ class SStr(object):
         if z3.is_int_value(l):
             return l.as_long()
         return None
+
+    def max_len(self):
+        """a concrete upper bound of the length if one is known, else None"""
+        k = self.known_len()
+        if k is not None:
+            return k
+        return self.maxlen
 
     def at(self, i):
         """code point at (already normalised, in-range) index i (z3 Int or int)."""
